@@ -31,15 +31,31 @@ type tdReader struct {
 }
 
 func newReader(td *tdigest.TDigest) tdReader {
+	if td == nil {
+		return tdReader{} // no estimator: reads as "no centroids"
+	}
 	tv := reflect.ValueOf(td).Elem()
 	return tdReader{tv, tv.FieldByName("unprocessed"), tv.FieldByName("processed")}
 }
 
-func (r tdReader) unprocessedLen() int { return r.un.Len() }
-func (r tdReader) processedLen() int   { return r.pr.Len() }
+func (r tdReader) unprocessedLen() int {
+	if !r.tv.IsValid() {
+		return 0
+	}
+	return r.un.Len()
+}
+func (r tdReader) processedLen() int {
+	if !r.tv.IsValid() {
+		return 0
+	}
+	return r.pr.Len()
+}
 
 func (r tdReader) read() full {
 	var f full
+	if !r.tv.IsValid() {
+		return f
+	}
 	pr := r.tv.FieldByName("processed")
 	for i := 0; i < pr.Len(); i++ {
 		f.pm = append(f.pm, pr.Index(i).Field(0).Float())
